@@ -87,6 +87,24 @@ end
 def violated (d : Decl) (v : Val) : Option (List Entry) :=
   fieldsEntries (sortById (markersOfDoc d.doc)) [d.name] v d.fields
 
+/-! ### C15: one cancellation point per validated field -/
+
+def leafHasRule (ty : Ty) (ms : List Marker) : Bool :=
+  ms.any fun m => match ruleName m with | some r => applies r ty | none => false
+
+mutual
+def fieldPolls (tm : List Marker) : FieldT → Nat
+  | .leaf names ty doc => if leafHasRule ty (tm ++ sortById (markersOfDoc doc)) then names.length else 0
+  | .nest names _ fields => names.length * fieldsPolls tm fields
+def fieldsPolls (tm : List Marker) : List FieldT → Nat
+  | [] => 0
+  | f :: fs => fieldPolls tm f + fieldsPolls tm fs
+end
+
+/-- the number of validated fields of a declaration = the number of cancellation points an undisturbed
+    `ValidateContext` run must pass ("a cancellation point precedes every validated field") -/
+def validatedFields (d : Decl) : Nat := fieldsPolls (sortById (markersOfDoc d.doc)) d.fields
+
 def Entry.render (e : Entry) : String := dotted e.path ++ "|" ++ e.type ++ "|" ++ e.value
 
 def renderReport (es : List Entry) : String :=
